@@ -11,7 +11,9 @@ from common import Ctx, MachineryError, pmap
 # deviation flags of the tree under test
 IMPL = dict(EscapeLatin1=True, AstralPairs=True, EscapeEverywhere=True)
 INTENDED = dict(EscapeLatin1=True, AstralPairs=True, EscapeEverywhere=True)
-BOUNDARY = [32, 65, 126, 160, 176, 177, 178, 233, 255, 256, 945, 8364, 32767, 32768, 55295, 57344, 65533, 65535, 65536, 128512, 1114111]
+# (173, 8194-8221, 8226: the characters RTF also has a control symbol / control word for - soft hyphen, non-breaking hyphen,
+#  en/em space and dash, curly quotes, bullet)
+BOUNDARY = [32, 65, 126, 160, 173, 176, 177, 178, 233, 255, 256, 945, 8194, 8195, 8209, 8211, 8212, 8216, 8217, 8220, 8221, 8226, 8364, 32767, 32768, 55295, 57344, 65533, 65535, 65536, 128512, 1114111]
 JUDGE = ["C10_RoundTrip", "C10_Range", "C10_Fallback", "C10_Lexical"]
 PLAN = {"quick": dict(sample=30000, around=64, strings=250, per_doc=2400),
         "thorough": dict(sample=None, around=64, strings=2000, per_doc=2400)}
